@@ -49,6 +49,28 @@ def norm_out(o):
     return o
 
 
+def expected_with_cycles(x, ancestors=()):
+    """The document with every back edge (a child that is one of its own ancestors, by identity) replaced by a marker."""
+    if any(x is a for a in ancestors):
+        return ('CYCLE', id(x))
+    anc = ancestors + (x,)
+    if isinstance(x, (list, tuple)):
+        return [expected_with_cycles(i, anc) for i in x]
+    if isinstance(x, dict):
+        return {k: expected_with_cycles(v, anc) for k, v in x.items()}
+    return x
+
+
+def norm_cyc(o):
+    if type(o).__name__ == 'IdentityHash':
+        return ('CYCLE', id(o.obj))
+    if isinstance(o, (list, tuple)):
+        return [norm_cyc(i) for i in o]
+    if isinstance(o, dict):
+        return {k: norm_cyc(v) for k, v in o.items()}
+    return o
+
+
 SCALARS = [0, 1, "a", None, True, 2.5]
 
 
@@ -119,9 +141,30 @@ def custom_cyclic_graphs():
     return out
 
 
+def sibling_cyclic_graphs():
+    """A cycle followed (in the same container, or further up) by nested containers that are NOT part of any cycle."""
+    out = []
+    root = []
+    back = [root]
+    root.extend([back, [[3], [4]], {"k": [[5]]}, "tail"])
+    out.append(('list: member pointing back to the root, then nested siblings', root))
+    d = {}
+    d.update({"self": d, "x": [[1]], "y": [[2]], "z": {"p": {"q": 1}}})
+    out.append(('dict: value pointing back to the dict, then nested values', d))
+    inner = {"v": [1, [2, [3]]]}
+    loop = [0]
+    loop.append(loop)
+    out.append(('nested: a self-containing list inside a list, followed by deep siblings', [loop, inner, [[["deep"]]], (1, (2, (3,)))]))
+    a = {"n": 1}
+    a["again"] = {"up": a, "after": [[1, 2], {"k": [3]}]}
+    out.append(('dict -> dict -> back to the first, with nested values after the back edge', {"first": a, "second": [[a["again"]["after"]]]}))
+    return out
+
+
 def cyclic_graphs():
-    """Every placement of one or two back edges in small list/dict skeletons, then the custom-object cycles."""
-    return _builtin_cyclic_graphs() + [(d + ' [custom]', o) for d, o in custom_cyclic_graphs()]
+    """Every placement of one or two back edges in small list/dict skeletons, cycles followed by nested siblings, then the
+    custom-object cycles."""
+    return _builtin_cyclic_graphs() + sibling_cyclic_graphs() + [(d + ' [custom]', o) for d, o in custom_cyclic_graphs()]
 
 
 def _builtin_cyclic_graphs():
@@ -227,6 +270,13 @@ def _cyclic_job(job):
                 if not any(isinstance(n, CyclicReference) for n in t.dfs()):
                     fails.append({'what': f"{name} on cyclic input ({desc}) returned a tree without a cycle placeholder",
                                   'class': f'c18-cycle-no-placeholder:{cname}'})
+                elif not desc.endswith('[custom]'):
+                    # everything that is not on the cycle must be converted faithfully, the back edges become placeholders
+                    got, exp = norm_cyc(t.to_obj()), expected_with_cycles(obj)
+                    if got != exp:
+                        fails.append({'what': f"{name} on cyclic input ({desc}) with cycles ignored converts to {got!r}, expected {exp!r} "
+                                              f"(back edges replaced by placeholders, everything else kept)",
+                                      'class': f'c18-cycle-content:{cname}'})
             else:
                 fails.append({'what': f"{name} on cyclic input ({desc}) returned normally although cycles are not ignored",
                               'class': f'c18-cycle-accepted:{cname}'})
